@@ -243,6 +243,14 @@ var poolCalls = []poolCall{
 		return string(redact.Sprintf("event %v|%+v", ev{3, redact.Safe(nil), redact.Unsafe(nil)}, &ev{4, redact.Unsafe(nil), redact.Safe(nil)}))
 	}},
 	{"markers", func() string { return string(redact.Sprintf("%s %v", "a‹b›\n", []byte("x›"))) }},
+	// pre-redacted operands as a caller can hand them over (not only well-formed ones), next to empty operands: calls
+	// that end with the buffer in its rarest states (nothing written but an envelope open, a lone marker taken back, ...)
+	// (one call per kind: the state a call leaves behind is seen by the NEXT call, which must be another kind's)
+	{"odd-close-empty", func() string { return string(redact.Sprint(redact.RedactableString("›"), "")) }},
+	{"odd-open-empty", func() string { return string(redact.Sprintf("%s%s", redact.RedactableBytes("‹"), "")) }},
+	{"odd-open-int", func() string { return string(redact.Sprint(redact.RedactableString("a‹"), 1)) }},
+	{"odd-envelope-empty", func() string { return string(redact.Sprintf("%v%v", redact.RedactableString("‹x›"), "")) }},
+	{"odd-empty", func() string { return string(redact.Sprintf("%s", "")) }},
 }
 
 // ---- pool events ---------------------------------------------------------------
